@@ -54,16 +54,16 @@ THOROUGH_MC = [
 ASBUILT_MC = [
     ("asbuilt_cache_late", consts('{"p1", "s1"}', '{"p1"}', '{"s1"}', ST, ST, MaxSeq=1, MaxKill=1, StartMayFail="TRUE",
                                   LateSubscribe="TRUE", Remembered="FALSE"), "XI_LateLocalSubscriber"),
-    ("asbuilt_twokeys", consts('{"p1", "s1"}', '{"p1"}', '{"s1"}', BOTH, BOTH, TwoKeys="TRUE", Resign="TRUE"), "XI_Authentic"),
 ]
 ASBUILT_THOROUGH = [
+    ("asbuilt_twokeys", consts('{"p1", "s1"}', '{"p1"}', '{"s1"}', BOTH, BOTH, TwoKeys="TRUE", Resign="TRUE"), "XI_Authentic"),
     ("asbuilt_cache_shrink", consts('{"p1", "p2", "s1"}', '{"p1", "p2"}', '{"s1"}', ST, ST, MaxSeq=1, MaxKill=1, MaxSrvRestart=1,
                                     StartMayFail="TRUE", Remembered="FALSE"), "XI_CacheNeverForgets"),
     ("asbuilt_cache_replay", consts('{"p1", "s1"}', '{"p1"}', '{"s1"}', ST, ST, MaxKill=1, MaxSrvRestart=1, MaxInject=1,
                                     StartMayFail="TRUE", Remembered="FALSE"), "XI_NeverBackwards"),
 ]
 
-# what the real code is known to do differently from the documented behaviour: (class prefix, clause, event) -> finding key
+# what the real code is known to do differently from the documented behaviour: scenario class, clause, event -> finding key
 CACHE_KEY = KEY + ":cache_start_forgets_cached_announcements"
 KEYS_KEY = KEY + ":publish_resigns_other_services_with_latest_key"
 CACHE_CLAUSES = {("XI_not_delivered", "Subscribe"), ("XI_cache_lost_announcement", "S2C"), ("XI_NeverBackwards_delivery", "S2C")}
